@@ -19,6 +19,7 @@ Ev == Rec[l]
 
 Result(e) ==
     IF e.a = "setmeta" THEN [ok |-> TRUE, bal |-> bal]
+    ELSE IF e.a = "init" THEN [ok |-> TRUE, bal |-> [bal EXCEPT ![e.to] = [d \in Denoms |-> Tot(e.coins, d)]]]
     ELSE IF e.a = "mint" THEN MintTo(bal, e.to, e.coins)
     ELSE IF e.a = "send" THEN SendFromTo(bal, e.from, e.to, e.coins)
     ELSE BurnFrom(bal, e.from, e.coins)
@@ -37,7 +38,8 @@ TraceStep ==
             /\ supply' = IF ~r.ok THEN supply
                          ELSE [d \in Denoms |-> supply[d]
                                  + (IF Ev.a = "mint" THEN Tot(Ev.coins, d) ELSE 0)
-                                 - (IF Ev.a = "burn" THEN Tot(Ev.coins, d) ELSE 0)]
+                                 - (IF Ev.a = "burn" THEN Tot(Ev.coins, d) ELSE 0)
+                                 + (IF Ev.a = "init" THEN Tot(Ev.coins, d) - bal[Ev.to][d] ELSE 0)]
 
 TraceSpec == TraceInit /\ [][TraceStep]_tvars
 
